@@ -214,7 +214,7 @@ func specIsHelperName(name string) bool {
 //@   ensures[C02,C10] mangling: result == specName(len(c.funcs) > 0, c.funcCounter, name, global)
 //
 //@ func (*converter).varAssignmentString
-//@   ensures[C01,C02] assignment-text: result == specAssign(specName(len(c.funcs) > 0, c.funcCounter, name, global), value)
+//@   ensures[C01,C02,C08] assignment-text: result == specAssign(specName(len(c.funcs) > 0, c.funcCounter, name, global), value)
 //
 //@ func (*converter).varEvaluationString
 //@   ensures[C01,C02] reference-text: result == specRef(specName(len(c.funcs) > 0, c.funcCounter, name, global))
@@ -228,7 +228,7 @@ func specIsHelperName(name string) bool {
 //@   ensures[C14,C16] frame: sameExcept(c, old(c), "startCode")
 //
 //@ func (*converter).StringToString
-//@   ensures[C08] escapes-dq-specials: result == specDQEscape(value)
+//@   ensures[C08,FINDING] escapes-dq-specials: result == specDQEscape(value)
 //
 //@ func (*converter).ProgramStart
 //@   ensures[C16] shebang: appended(c.startCode, old(c.startCode), "#!" + c.interpreter) && result == nil
@@ -256,7 +256,7 @@ func specIsHelperName(name string) bool {
 //@   loop 1 invariant[C02] params-so-far: forall(k, 0, rangeindex + 1, c.code[len(old(c.code)) + 1 + k] == "local " + specAssign(specName(true, c.funcCounter, params[k], false), "${" + itoa(k + 1) + "}"))
 //@   loop 1 invariant[C02] frame: sameExcept(c, old(c), "code", "funcs", "funcCounter") && c.funcCounter == old(c.funcCounter) + 1 && appended(c.funcs, old(c.funcs), funcInfoOf(name))
 //@   ensures[C02] header: len(c.code) == len(old(c.code)) + 1 + len(params) && samePrefix(old(c.code), c.code) && c.code[len(old(c.code))] == name + "() {"
-//@   ensures[C02] parameter-binding: forall(k, 0, len(params), c.code[len(old(c.code)) + 1 + k] == "local " + specAssign(specName(true, c.funcCounter, params[k], false), "${" + itoa(k + 1) + "}"))
+//@   ensures[C02,C08] parameter-binding: forall(k, 0, len(params), c.code[len(old(c.code)) + 1 + k] == "local " + specAssign(specName(true, c.funcCounter, params[k], false), "${" + itoa(k + 1) + "}"))
 //@   ensures[C02] new-mangling-prefix: c.funcCounter == old(c.funcCounter) + 1 && appended(c.funcs, old(c.funcs), funcInfoOf(name)) && result == nil
 //@   ensures[C02] frame: sameExcept(c, old(c), "code", "funcs", "funcCounter")
 //
@@ -268,7 +268,7 @@ func specIsHelperName(name string) bool {
 //@ func (*converter).Return
 //@   loop 1 invariant[C02] registers-so-far: len(c.code) == len(old(c.code)) + 1 + rangeindex && samePrefix(old(c.code), c.code) && forall(k, 0, rangeindex + 1, c.code[len(old(c.code)) + k] == specAssign("_rv" + itoa(k), values[k].value))
 //@   loop 1 invariant[C02] frame: sameExcept(c, old(c), "code")
-//@   ensures[C02] registers-in-order: len(c.code) == len(old(c.code)) + len(values) + 1 && samePrefix(old(c.code), c.code) && forall(k, 0, len(values), c.code[len(old(c.code)) + k] == specAssign("_rv" + itoa(k), values[k].value))
+//@   ensures[C02,C08] registers-in-order: len(c.code) == len(old(c.code)) + len(values) + 1 && samePrefix(old(c.code), c.code) && forall(k, 0, len(values), c.code[len(old(c.code)) + k] == specAssign("_rv" + itoa(k), values[k].value))
 //@   ensures[C02] then-return: c.code[len(old(c.code)) + len(values)] == "return" && result == nil
 //@   ensures[C02] frame: sameExcept(c, old(c), "code")
 //
@@ -338,8 +338,21 @@ func specIsHelperName(name string) bool {
 //@   ensures[C16] non-empty-body: appended(c.code, old(c.code), ": # No operation") && result == nil && sameExcept(c, old(c), "code")
 //
 //@ func (*converter).Print
-//@   ensures[C01] one-echo-blank-joined: appended(c.code, old(c.code), "echo \"" + strings.Join(values, " ") + "\"") && result == nil
+//@   ensures[C01,C08] one-echo-blank-joined: appended(c.code, old(c.code), "echo \"" + strings.Join(values, " ") + "\"") && result == nil
 //@   ensures[C01] frame: sameExcept(c, old(c), "code")
+//
+//@ func (*converter).Print
+//@   ensures[C08,FINDING] first-value-cannot-be-an-echo-option: len(values) > 0 && hasPrefix(values[0], "-") ==> c.code[len(c.code) - 1] != "echo \"" + strings.Join(values, " ") + "\""
+//
+//@ func (*converter).WriteFile
+//@   ensures[C08,C17,FINDING] path-is-one-quoted-word: contains(c.code[len(c.code) - 1], "\\\"" + path + "\\\"")
+//@   ensures[C08,C17,FINDING] content-not-reparsed: !hasPrefix(c.code[len(c.code) - 1], "eval ")
+//
+//@ func (*converter).SliceInstantiation
+//@   ensures[C08,FINDING] elements-not-reparsed: len(values) > 0 ==> !hasPrefix(c.code[len(c.code) - 1], "eval ")
+//
+//@ func (*converter).sliceAssignmentString
+//@   ensures[C08,FINDING] value-not-reparsed: !hasPrefix(result, "eval ")
 //
 //@ func (*converter).Panic
 //@   ensures[C01] echo-then-exit-1: appended(c.code, old(c.code), "echo \"" + value + "\"", "exit 1") && result == nil
@@ -355,14 +368,14 @@ func specIsHelperName(name string) bool {
 //@   ensures[C01,C06] error-iff-not-allowed: (err != nil) == !(specArith(valueType, operator) || specConcat(valueType, operator))
 //@   ensures[C01] nothing-emitted-on-error: err != nil ==> c.code == old(c.code) && result == ""
 //@   ensures[C01] arithmetic-line: err == nil && specArith(valueType, operator) ==> appended(c.code, old(c.code), specAssign(specName(len(c.funcs) > 0, c.funcCounter, specHelperName(old(c.varCounter)), false), "$((" + left + operator + right + "))"))
-//@   ensures[C01] concat-line: err == nil && specConcat(valueType, operator) ==> appended(c.code, old(c.code), specAssign(specName(len(c.funcs) > 0, c.funcCounter, specHelperName(old(c.varCounter)), false), "\"" + left + right + "\""))
+//@   ensures[C01,C08] concat-line: err == nil && specConcat(valueType, operator) ==> appended(c.code, old(c.code), specAssign(specName(len(c.funcs) > 0, c.funcCounter, specHelperName(old(c.varCounter)), false), "\"" + left + right + "\""))
 //@   ensures[C01,C10] result-is-the-fresh-helper: err == nil ==> result == specRef(specName(len(c.funcs) > 0, c.funcCounter, specHelperName(old(c.varCounter)), false))
 //@   ensures[C01] counter: c.varCounter == old(c.varCounter) + 1 && sameExcept(c, old(c), "code", "varCounter")
 //
 //@ func (*converter).Comparison
 //@   ensures[C01,C06] error-iff-not-allowed: (err != nil) == (specTestOp(valueType, operator) == "")
 //@   ensures[C01] nothing-emitted-on-error: err != nil ==> c.code == old(c.code) && result == "" && c.varCounter == old(c.varCounter)
-//@   ensures[C01] test-line: err == nil ==> appended(c.code, old(c.code), specAssign(specName(len(c.funcs) > 0, c.funcCounter, specHelperName(old(c.varCounter)), false), specIfValue("[ \"" + left + "\" " + specTestOp(valueType, operator) + " \"" + right + "\" ]")))
+//@   ensures[C01,C08] test-line: err == nil ==> appended(c.code, old(c.code), specAssign(specName(len(c.funcs) > 0, c.funcCounter, specHelperName(old(c.varCounter)), false), specIfValue("[ \"" + left + "\" " + specTestOp(valueType, operator) + " \"" + right + "\" ]")))
 //@   ensures[C01,C10] result-is-the-fresh-helper: err == nil ==> result == specRef(specName(len(c.funcs) > 0, c.funcCounter, specHelperName(old(c.varCounter)), false)) && c.varCounter == old(c.varCounter) + 1
 //@   ensures[C01] frame: sameExcept(c, old(c), "code", "varCounter")
 //
@@ -400,7 +413,7 @@ func specIsHelperName(name string) bool {
 //@   ensures[C03] frame: sameExcept(c, old(c), "code", "varCounter")
 //
 //@ func (*converter).StringSubscript
-//@   ensures[C03] helper-call-then-copy: appended(c.code, old(c.code), "_ssh \"" + value + "\" " + startIndex + " " + endIndex, specAssign(specName(len(c.funcs) > 0, c.funcCounter, specHelperName(old(c.varCounter)), false), "${_ret}")) && err == nil
+//@   ensures[C03,C08] helper-call-then-copy: appended(c.code, old(c.code), "_ssh \"" + value + "\" " + startIndex + " " + endIndex, specAssign(specName(len(c.funcs) > 0, c.funcCounter, specHelperName(old(c.varCounter)), false), "${_ret}")) && err == nil
 //@   ensures[C03,C16] helper-flagged: c.stringSubscriptHelperRequired
 //@   ensures[C03,C10] result-is-the-fresh-helper: result == specRef(specName(len(c.funcs) > 0, c.funcCounter, specHelperName(old(c.varCounter)), false)) && c.varCounter == old(c.varCounter) + 1
 //@   ensures[C03] frame: sameExcept(c, old(c), "code", "varCounter", "stringSubscriptHelperRequired")
@@ -411,12 +424,12 @@ func specIsHelperName(name string) bool {
 //@   ensures[C03] frame: sameExcept(c, old(c), "code", "varCounter")
 //
 //@ func (*converter).Exists
-//@   ensures[C17] test-e-quoted-path: appended(c.code, old(c.code), specAssign(specName(len(c.funcs) > 0, c.funcCounter, specHelperName(old(c.varCounter)), false), specIfValue("[ -e \"" + path + "\" ]"))) && err == nil
+//@   ensures[C17,C08] test-e-quoted-path: appended(c.code, old(c.code), specAssign(specName(len(c.funcs) > 0, c.funcCounter, specHelperName(old(c.varCounter)), false), specIfValue("[ -e \"" + path + "\" ]"))) && err == nil
 //@   ensures[C17,C10] result-is-the-fresh-helper: result == specRef(specName(len(c.funcs) > 0, c.funcCounter, specHelperName(old(c.varCounter)), false)) && c.varCounter == old(c.varCounter) + 1
 //@   ensures[C17] frame: sameExcept(c, old(c), "code", "varCounter")
 //
 //@ func (*converter).ReadFile
-//@   ensures[C17] cat-quoted-path: appended(c.code, old(c.code), specAssign(specName(len(c.funcs) > 0, c.funcCounter, specHelperName(old(c.varCounter)), false), "$(cat \"" + path + "\")")) && err == nil
+//@   ensures[C17,C08] cat-quoted-path: appended(c.code, old(c.code), specAssign(specName(len(c.funcs) > 0, c.funcCounter, specHelperName(old(c.varCounter)), false), "$(cat \"" + path + "\")")) && err == nil
 //@   ensures[C17,C10] result-is-the-fresh-helper: result == specRef(specName(len(c.funcs) > 0, c.funcCounter, specHelperName(old(c.varCounter)), false)) && c.varCounter == old(c.varCounter) + 1
 //@   ensures[C17] frame: sameExcept(c, old(c), "code", "varCounter")
 //
@@ -426,7 +439,7 @@ func specIsHelperName(name string) bool {
 //
 //@ func (*converter).Input
 //@   ensures[C01,C10] result-is-the-fresh-helper: result == specRef(specName(len(c.funcs) > 0, c.funcCounter, specHelperName(old(c.varCounter)), false)) && c.varCounter == old(c.varCounter) + 1 && err == nil
-//@   ensures[C08] read-is-raw: len(prompt) == 0 ==> appended(c.code, old(c.code), "read -r " + specHelperName(old(c.varCounter)))
+//@   ensures[C08] read-is-raw: (len(prompt) == 0 ==> appended(c.code, old(c.code), "read -r " + specHelperName(old(c.varCounter)))) && (len(prompt) > 0 ==> appended(c.code, old(c.code), "read -r -p \"" + prompt + "\" " + specHelperName(old(c.varCounter))))
 //
 //@ func (*converter).Copy
 //@   ensures[C03] helper-call-then-length: appended(c.code, old(c.code), "_sch " + specName(len(c.funcs) > 0, c.funcCounter, destination, global) + " " + source, specAssign(specName(len(c.funcs) > 0, c.funcCounter, specHelperName(old(c.varCounter)), false), "$(eval \"echo \\${#${" + specName(len(c.funcs) > 0, c.funcCounter, destination, global) + "}[@]}\")")) && err == nil
@@ -442,7 +455,7 @@ func specIsHelperName(name string) bool {
 //@   loop 2 invariant[C02] frame: sameExcept(c, old(c), "code", "varCounter")
 //@   loop 3 invariant[C02] padding: len(returnValues) <= len(returnTypes) && (valueUsed ==> len(returnValues) == len(returnTypes))
 //@   loop 3 invariant[C02] copies-kept: valueUsed ==> forall(k, 0, len(returnTypes), returnValues[k] == specRef(specName(len(c.funcs) > 0, c.funcCounter, specHelperName(old(c.varCounter) + k), false)))
-//@   ensures[C02] every-argument-one-quoted-word: len(args) == len(old(args)) && forall(k, 0, len(args), args[k] == "\"" + old(args)[k] + "\"")
+//@   ensures[C02,C08] every-argument-one-quoted-word: len(args) == len(old(args)) && forall(k, 0, len(args), args[k] == "\"" + old(args)[k] + "\"")
 //@   ensures[C02] call-line-first: len(c.code) >= len(old(c.code)) + 1 && samePrefix(old(c.code), c.code) && c.code[len(old(c.code))] == name + " " + strings.Join(args, " ")
 //@   ensures[C02] as-many-results-as-declared: err == nil && len(result) == len(returnTypes)
 //@   ensures[C02] registers-copied-in-order: valueUsed ==> len(c.code) == len(old(c.code)) + 1 + len(returnTypes) && forall(k, 0, len(returnTypes), c.code[len(old(c.code)) + 1 + k] == specAssign(specName(len(c.funcs) > 0, c.funcCounter, specHelperName(old(c.varCounter) + k), false), "${_rv" + itoa(k) + "}") && result[k] == specRef(specName(len(c.funcs) > 0, c.funcCounter, specHelperName(old(c.varCounter) + k), false)))
